@@ -241,6 +241,21 @@ def rule_debug_tuple_sibling(ctx):
                 )
         except X.Unsupported as u:
             ctx.note(f"SIB-EXEC cannot evaluate the padding adapter ({u}); textual comparison used")
+    # the builder's state has the same fields of the same types as core's (a narrower counter wraps at 256 fields)
+    def struct_fields(fobj, name):
+        for it, mods, cfgs in A.iter_items(fobj.ast["items"]):
+            if A.kind(it) == "Item::Struct" and it["ident"]["sym"] == name and A.kind(it["fields"]) == "Fields::Named":
+                flds = it["fields"]["0"]["named"] if "0" in it["fields"] else it["fields"]["named"]
+                return {x["ident"]["sym"]: re.sub(r"'\w+", "'_", A.expr_text(fobj, x["ty"]).replace(" ", "")).replace("fmt::", "") for x in flds}
+        return None
+
+    dsf, csf = struct_fields(lib, "DebugTuple"), struct_fields(core, "DebugTuple")
+    ctx.instance("sib:struct:DebugTuple", sample={"derive_more": dsf, "core": csf})
+    if dsf is None or csf is None:
+        raise A.AnchorLost("DebugTuple", "struct definition not found")
+    for fld_, ty_ in sorted(csf.items()):
+        if fld_ in dsf and dsf[fld_] != ty_ and re.fullmatch(r"[a-z0-9]+", ty_) and re.fullmatch(r"[a-z0-9]+", dsf[fld_]):
+            ctx.report(f"sib:struct:{fld_}", ctx.where(lib, df["DebugTuple::field"].node), f"`DebugTuple::{fld_}` is `{dsf[fld_]}` here and `{ty_}` in core: the builder's state can no longer hold what core's holds (a `u8` field counter overflows at 256 fields: panic in debug builds, `(`/`, ` mix-up in release)", {})
     # every other method the adapter's `Write` impl overrides must behave like core's (the trait's defaults go through
     # `write_str`, so an override is a second copy of the indentation logic)
     over = sorted(fn.name for fn in A.functions(lib) if fn.qual.startswith("<Padded as Write>::") and fn.name != "write_str")
